@@ -408,7 +408,18 @@ class Sim:
                 v = op["int"]
                 return int(v) if isinstance(v, str) else v
             if "bytes" in op:
-                return Bytes(op["bytes"])
+                ty = op.get("ty", "").replace("&'static ", "&").replace("&mut ", "&")
+                if ty.startswith("&[u8") or ty in ("&str", "str") or ty.startswith("[u8"):
+                    return Bytes(op["bytes"])
+                # promoted constant of a local fieldless enum: decode the discriminant
+                inner = ty[1:] if ty.startswith("&") else ty
+                a = self.adts.get(inner)
+                if a and a["kind"] == "enum" and all(not v["fields"] for v in a["variants"]):
+                    d = int.from_bytes(bytes(op["bytes"]), "little")
+                    for v in a["variants"]:
+                        if v.get("discr", v["idx"]) == d:
+                            return Adt(inner, v["idx"], [], v["name"])
+                return UNK
             if "static" in op:
                 s = self.statics.get(op["static"])
                 return s if s is not None else UNK
